@@ -45,6 +45,13 @@ def run(db, rep, tier):
     rep.rule("R6-fresh-derived", "a field the serialiser derives is stored unconditionally with respect to its own old value: no store is guarded "
                                  "by an ordering comparison that reads the field being stored (grow-only / shrink-only updates go stale)", 40)
     r6_fresh(db, rep)
+    rep.rule("R2-parent", "(C12.R2, re-run here: transport checksums and the MPLS bottom-of-stack bit are derived only when the layer can see "
+                          "its parent, so every store of a child must set the child's parent link)", 4)
+    from rules import c12
+    c12.r2(db, rep)
+    rep.rule("R7-immediate-child", "next-protocol tags are derived from the IMMEDIATE inner layer: a serialiser that stores a tag does not "
+                                   "search the chain (find_pdu / rfind_pdu) to decide it", 8)
+    r7_immediate(db, rep)
     rep.explanation = ("Ordering / protocol part of C05: for each checksum producer the zero-write-sum-fold-complement-store-patch sequence "
                        "and the pseudo-header arguments (R1); header fields are final when written (R2); tags come from the immediate "
                        "child and the IPv6 extension chain is linked for every index (R3); padding is zero after the payload (R4). "
@@ -749,3 +756,32 @@ def r6_fresh(db, rep):
                 rep.ok("R6-fresh-derived", key, facts.loc(f, x), "not guarded by an ordering test on its own old value")
     if n < 40:
         rep.analysis_broken("only %d derived-field stores found in serialisers" % n)
+
+
+def r7_immediate(db, rep):
+    from rules import c15
+    tags = set(k for k, v in c15.DERIVED_FIELDS.items() if "tag" in v)
+    n = 0
+    done = set()
+    for (rec, fld) in sorted(tags):
+        if rec in done:
+            continue
+        done.add(rec)
+        from rules import c02
+        w = c02.final(db, rec, "write_serialization", "(unsigned char *, unsigned int)")
+        if w is None:
+            continue
+        n += 1
+        key = "%s::write_serialization" % rec.split("::")[-1]
+        bad = None
+        for x in facts.fn_nodes(w):
+            if x["k"] == "CXXMemberCallExpr" and x.get("cname") in ("find_pdu", "rfind_pdu") and strip_this(x):
+                bad = x
+        if bad is not None:
+            rep.violation("R7-immediate-child", key, facts.loc(w, bad),
+                          "`%s` searches the whole chain below this layer: with a tunnel (e.g. IPv6 over IPv4 inside) the tag describes a "
+                          "deeper layer, not the one that follows the header" % facts.expr_str(bad)[:60])
+        else:
+            rep.ok("R7-immediate-child", key, facts.loc(w), "no chain search in the serialiser: tags come from inner_pdu()")
+    if n < 8:
+        rep.analysis_broken("only %d tag-deriving serialisers found" % n)
